@@ -5,6 +5,8 @@ import (
 	"go/token"
 	"go/types"
 	"math/big"
+	"sort"
+	"strings"
 
 	"crverif/internal/an"
 
@@ -69,6 +71,9 @@ func runC09(c *Ctx) {
 	}
 	c09Handle(c)
 	c09Listen(c)
+	if c.P.Cfg.GOOS == "linux" || c.P.Func("internal/system", "dialNDP") != nil {
+		c09Socket(c)
+	}
 }
 
 func c09ReceiveRetry(c *Ctx, rr *ssa.Function) {
@@ -444,4 +449,76 @@ func checkListenDelivery(c *Ctx, rule string, l *ssa.Function, ps []*an.Path) {
 		}
 	}
 	c.R.Check(n >= 1, rule, fn+":callback-sites", fn, c.pos(l.Pos()), fmt.Sprintf("%d callback invocation path(s)", n), ">= 1", "anchor-missing")
+}
+
+// c09Socket (R-C09-5): the hop-limit test in receiveRetry reads the hop limit
+// from the control message of each packet. The socket must be asked to deliver
+// it (SetControlMessage(FlagHopLimit, true)) — otherwise the field is zero and
+// every message is dropped as invalid — and only router solicitations and
+// advertisements pass the ICMPv6 filter. Decided on every success path of
+// dialNDP.
+func c09Socket(c *Ctx) {
+	dn := c.P.Func("internal/system", "dialNDP")
+	if dn == nil {
+		c.R.Fail("R-C09-5", "system.dialNDP", "", "", "function not found", "dialNDP prepares the socket", "anchor-missing")
+		return
+	}
+	fn := c.fname(dn)
+	n := 0
+	for _, p := range c.pathsO("R-C09-5", dn, an.PathOpts{}) {
+		if p.Ret == nil || len(p.Results) != 3 || !exprIsNil(p.Results[2]) {
+			continue
+		}
+		n++
+		hop, blockAll, filterSet := false, false, false
+		accepted := map[int64]bool{}
+		p.Instrs(func(in ssa.Instruction) {
+			ci, ok := in.(ssa.CallInstruction)
+			if !ok {
+				return
+			}
+			f := an.CalleeObj(ci.Common())
+			if f == nil {
+				return
+			}
+			args := ci.Common().Args
+			switch f.Name() {
+			case "SetControlMessage":
+				if len(args) >= 2 {
+					flag, on := p.Of(args[len(args)-2]), p.Of(args[len(args)-1])
+					// ipv6.FlagHopLimit = 1 << 1
+					if k, isC := flag.ConstInt(); isC && k&2 != 0 && on.IsConst("true") {
+						hop = true
+					}
+				}
+			case "SetAll":
+				if f.Pkg() != nil && strings.HasSuffix(f.Pkg().Path(), "x/net/ipv6") && p.Of(args[len(args)-1]).IsConst("true") {
+					blockAll = true
+				}
+			case "Accept":
+				if f.Pkg() != nil && strings.HasSuffix(f.Pkg().Path(), "x/net/ipv6") && blockAll {
+					if k, isC := p.Of(args[len(args)-1]).ConstInt(); isC {
+						accepted[k] = true
+					}
+				}
+			case "SetICMPFilter":
+				filterSet = true
+			}
+		})
+		okFilter := blockAll && filterSet && len(accepted) == 2 && accepted[133] && accepted[134]
+		c.R.Check(hop && okFilter, "R-C09-5", fn+":socket-delivers-hop-limit-and-only-RS-RA", fn, c.pos(p.Ret.Pos()),
+			fmt.Sprintf("SetControlMessage(FlagHopLimit,true)=%v; filter: block all=%v, accepted types=%v, applied=%v", hop, blockAll, keysOfInt(accepted), filterSet),
+			"hop limit delivery is enabled; the ICMPv6 filter blocks everything except types 133 (RS) and 134 (RA)",
+			"without the hop limit control message every packet reads as hop limit 0 and is dropped as invalid (or off-link packets cannot be told apart); with a wider filter other ICMPv6 types reach the handler")
+	}
+	c.R.Check(n >= 1, "R-C09-5", fn+":success-paths", fn, c.pos(dn.Pos()), fmt.Sprintf("%d success path(s)", n), ">= 1", "anchor-missing")
+}
+
+func keysOfInt(m map[int64]bool) []int64 {
+	var out []int64
+	for k := range m {
+		out = append(out, k)
+	}
+	sort.Slice(out, func(i, j int) bool { return out[i] < out[j] })
+	return out
 }
